@@ -218,7 +218,14 @@ fn replay(path: &str, quiet: bool) -> i32 {
 fn selfcheck(id: &str, args: &[String]) -> i32 {
     let runs: u64 = arg_val(args, "--runs").and_then(|s| s.parse().ok()).unwrap_or(10_000);
     let seed: u64 = std::env::var("VERIF_SEED").ok().and_then(|s| s.parse().ok()).unwrap_or(20260926);
-    let r = if id == "C14" {
+    let r = if id == "C10" {
+        let a = selfcheck_with(&mharness::Managed, id, seed, runs);
+        if a != 0 {
+            a
+        } else {
+            selfcheck_with(&uworld::Unmanaged, id, seed, runs)
+        }
+    } else if id == "C14" {
         selfcheck_with(&sworld::SyncW, id, seed, runs)
     } else if matches!(id, "C05" | "C12") {
         selfcheck_with(&uworld::Unmanaged, id, seed, runs)
